@@ -3,6 +3,7 @@ import Proofs.Locks
 import Proofs.Term
 import Generated.Facts
 import Model.Signals
+import Proofs.Signals
 /-! # C12 — Close and Disconnect end the client from any state, promptly and for good
 
 Model: `Model.Sync` — the two semaphores, the signals, one read routine and any
@@ -164,5 +165,37 @@ theorem C12_sound_signals_never_both (names : List String) (w : Bool) (es : List
 the write semaphore was handed back -/
 example : soundSignals ["clear:offlineSig", "block:onlineSig", "close:writeSem"] false = false := by decide
 example : soundSignals ["send:writeSem", "block:offlineSig", "clear:onlineSig"] true = false := by decide
+
+/-! ## The signals on the session model (`S.online`; Offline is its complement, as the `sig` observations confirm on every run) -/
+
+/-- after `Close` the Online signal is blocked (so Offline is the one released) and the write semaphore is closed -/
+theorem C12_close_signals (s : S) : s.closeNow.online = false ∧ s.closeNow.link = .closed := by
+  unfold S.closeNow
+  simp only
+  constructor
+  · rw [(finishClosers_sig _).1, (failWaiters_sig _ _).1]
+  · rw [(finishClosers_sig _).2, (failWaiters_sig _ _).2]
+
+
+/-- after `Disconnect` got hold of both semaphores the Online signal is blocked, whatever became of the DISCONNECT packet -/
+theorem C12_disconnect_signals (s : S) (hl : s.link ≠ .closed) (hu : s.disconnectNow.2 ≠ mkErr ["unsupported"]) :
+    s.disconnectNow.1.online = false ∧ s.disconnectNow.1.link = .closed := by
+  unfold S.disconnectNow at hu ⊢
+  cases h : s.link with
+  | closed => exact absurd h hl
+  | pending =>
+    simp only [h] at hu ⊢
+    exact ⟨by rw [(finishClosers_sig _).1, (failWaiters_sig _ _).1], by rw [(finishClosers_sig _).2, (failWaiters_sig _ _).2]⟩
+  | down =>
+    simp only [h] at hu ⊢
+    exact ⟨by rw [(finishClosers_sig _).1, (failWaiters_sig _ _).1], by rw [(finishClosers_sig _).2, (failWaiters_sig _ _).2]⟩
+  | live =>
+    simp only [h] at hu ⊢
+    split at hu
+    · exact absurd rfl hu
+    · rename_i hg
+      simp only [hg, Bool.false_eq_true, if_false]
+      exact ⟨by rw [(finishClosers_sig _).1, (failWaiters_sig _ _).1], by rw [(finishClosers_sig _).2, (failWaiters_sig _ _).2]⟩
+
 
 end Model
